@@ -384,6 +384,9 @@ impl Prop for C18Prop {
             }
         }
     }
+    fn sut_crash_is_violation(&self) -> bool {
+        false
+    }
     fn known(&self, v: &Viol) -> Option<&'static str> {
         // -M runs the modern frontend in its non-strict mode, which does not process an include
         // inside an included file: the listing of a classic program with nested includes fails
